@@ -193,7 +193,7 @@ func servicePkg(dir, design, svc string) error {
 							}
 						}
 					}
-					fmt.Fprintf(&body, "func (s *VStub) %s(%s) (%s) {\n\tout := s.H(%q, []any{%s})\n%s\treturn\n}\n\n",
+					fmt.Fprintf(&body, "func (s *VStub) %s(%s) (%s) {\n\tout := s.vhook__(%q, []any{%s})\n%s\treturn\n}\n\n",
 						name, strings.Join(params, ", "), strings.Join(results, ", "), name, strings.Join(args, ", "), assigns.String())
 				}
 			}
@@ -211,10 +211,10 @@ func servicePkg(dir, design, svc string) error {
 	for _, n := range inames {
 		fmt.Fprintf(&b, "\t%s %q\n", n, imports[n])
 	}
-	fmt.Fprintf(&b, ")\n\n// VStub implements the generated Service (and Auther) interface by forwarding to H.\ntype VStub struct{ H vreg.Hook }\n\n")
+	fmt.Fprintf(&b, ")\n\n// VStub implements the generated Service (and Auther) interface by forwarding to the hook.\ntype VStub struct{ vhook__ vreg.Hook }\n\n")
 	b.Write(body.Bytes())
 	fmt.Fprintf(&b, "func init() {\n\tvreg.Register(%q, %q, \"service\", map[string]any{\n", design, svc)
-	fmt.Fprintf(&b, "\t\t\"NewStub\": func(h vreg.Hook) any { return &VStub{H: h} },\n")
+	fmt.Fprintf(&b, "\t\t\"NewStub\": func(h vreg.Hook) any { return &VStub{vhook__: h} },\n")
 	fmt.Fprintf(&b, "\t\t\"GoMethods\": %#v,\n", methods)
 	for _, fn := range exportedFuncs(files) {
 		fmt.Fprintf(&b, "\t\t%q: %s,\n", fn, fn)
